@@ -42,7 +42,7 @@ Definition self_parens (k:bk) (parent:option (bk * dir)) : bool :=
   match parent with None => false | Some (pk, side) =>
     if (pri k <? pri pk)%Z then true else
     if (pri pk =? pri k)%Z then
-      match side with R => addsub k && addsub pk | L => muldiv k && muldiv pk end
+      match side with DR => addsub k && addsub pk | DL => muldiv k && muldiv pk end
     else false end.
 Definition opname (k:bk) : list N := match k with KEq => [61] | KAdd => [43] | KSub => [45] | KMul => [42] | KDiv => [47] | KPow => [94] end%N.
 Definition sp := 32%N.
@@ -71,14 +71,14 @@ Fixpoint show (e:expr) (parent:option (bk*dir)) : option (list N) :=
   | Un UFact c => match show c None with Some s => Some (s ++ [33%N]) | None => None end
   | Un USgn c => match show c None with Some s => Some ([115;103;110;40]%N ++ s ++ [41%N]) | None => None end
   | Bin KPow l r =>
-    match show l (Some (KPow,L)), show r (Some (KPow,R)) with
+    match show l (Some (KPow,DL)), show r (Some (KPow,DR)) with
     | Some a, Some b =>
       let lpar := match l with Un UNeg _ | Bin KPow _ _ => true | Bin KMul ll lr => compact KMul ll lr | _ => false end in
       let rpar := match r with Bin KPow _ _ => true | _ => false end in
       Some ((if lpar then paren a else a) ++ 94%N :: (if rpar then paren b else b))
     | _,_ => None end
   | Bin k l r =>
-    match show l (Some (k,L)), show r (Some (k,R)) with
+    match show l (Some (k,DL)), show r (Some (k,DR)) with
     | Some a, Some b =>
       if compact k l r then Some (a ++ b) else
       let body := a ++ sp :: opname k ++ sp :: b in
